@@ -20,11 +20,23 @@ from frouros.detectors.data_drift.batch import (AndersonDarlingTest, BWSTest, Ch
 # (warning filters are left at the defaults: see common.py)
 
 
+def arr(v):
+    """a sample as an array; labels of mixed type (or with a missing value) stay Python objects, as in an object column"""
+    if OBJECT_LABELS[0] or any(x is None for x in v) or len({type(x) for x in v}) > 1:
+        a = np.empty(len(v), dtype=object)
+        a[:] = v
+        return a
+    return np.array(v)
+
+
 def res(det_cls, ref, test, **kw):
     d = det_cls()
-    d.fit(X=np.array(ref))
-    r = d.compare(X=np.array(test), **kw)[0]
+    d.fit(X=arr(ref) if det_cls is ChiSquareTest and OBJECT_LABELS[0] else np.array(ref))
+    r = d.compare(X=arr(test) if det_cls is ChiSquareTest and OBJECT_LABELS[0] else np.array(test), **kw)[0]
     return float(r.statistic), float(r.p_value)
+
+
+OBJECT_LABELS = [False]
 
 
 def direct(name, ref, test, **kw):
@@ -93,6 +105,22 @@ def check_numeric(out: Outcome, rng, ref, test, lines, expect) -> None:
                 out.violation(f"{name} with options {kw}: detector returns {got}, the named test applied to (reference, test) gives {want}", r)
             if math.isnan(got[1]) or not (0.0 <= got[1] <= 1.0):
                 out.violation(f"{name} with options {kw}: p-value {got[1]!r} outside [0,1]", r)
+        # options are per CALL: a detector that served a call with options (accepted or rejected ones) answers the next plain call like a new detector
+        reused = cls()
+        reused.fit(X=np.array(ref))
+        plain0 = reused.compare(X=np.array(test), **fixed)[0]
+        for kw in OPTIONS[name][1:3] + [{"alternative": "not-a-side"}]:
+            try:
+                reused.compare(X=np.array(test), **{**kw, **fixed})
+            except Exception:  # noqa: BLE001
+                pass
+        try:
+            plain1 = reused.compare(X=np.array(test), **fixed)[0]
+            if not (same(float(plain0.statistic), float(plain1.statistic)) and (same(float(plain0.p_value), float(plain1.p_value)) or (name == "BWS" and not exact_bws))):
+                out.violation(f"{name}: after calls with options the plain compare gives ({float(plain1.statistic)!r}, {float(plain1.p_value)!r}), before them "
+                              f"({float(plain0.statistic)!r}, {float(plain0.p_value)!r}): options of one call stick to the detector", {**rep, "detector": name})
+        except Exception as e:  # noqa: BLE001
+            out.violation(f"{name}: after a call with a rejected option the plain compare raises {type(e).__name__}: {e}", {**rep, "detector": name})
         base = res(cls, ref, test, **fixed)
         sr, stt = ref[:], test[:]
         rng.shuffle(sr)
@@ -144,6 +172,10 @@ def check_numeric(out: Outcome, rng, ref, test, lines, expect) -> None:
 
 def check_chi2(out: Outcome, rng, lines, expect) -> None:
     alphabet = rng.choice([["a", "b"], ["a", "b", "c"], ["x", "y", "z", "w"], [1, 2, 3], ["only"]])
+    objects = rng.random() < 0.25
+    if objects:        # labels as they come out of an object column: a missing value, mixed types (hashable, not sortable)
+        alphabet = [None, "a", 7, 2.5][: rng.randint(2, 4)]
+    OBJECT_LABELS[0] = objects
     n, m = rng.randint(4, 40), rng.randint(4, 40)
     ref = [rng.choice(alphabet) for _ in range(n)]
     ints = isinstance(alphabet[0], int)      # both samples keep one dtype (numpy would otherwise stringify only one of them)
@@ -176,7 +208,8 @@ def check_chi2(out: Outcome, rng, lines, expect) -> None:
         out.violation(f"ChiSquareTest: result changes when the samples are swapped: {base} vs {sw}", rep)
     lines.append("t2 chi2 1 " + " ".join(f"{test.count(c)} {ref.count(c)}" for c in cats))
     expect.append(("chi2", base[0], rep))
-    out.case({"chi2": True, "n": len(ref), "m": len(test), "k": len(cats), "h": hash(tuple(map(str, ref + test))) & 0xFFFFFF})
+    out.case({"chi2": True, "n": len(ref), "m": len(test), "k": len(cats), "object_labels": objects, "h": hash(tuple(map(str, ref + test))) & 0xFFFFFF})
+    OBJECT_LABELS[0] = False
 
 
 def run(out: Outcome) -> None:
